@@ -157,7 +157,8 @@ def c20_3(c: Ctx) -> None:
     ps = u.params()
 
     def key(scope: str, inst: Obj | None, name: str | None = 'sem'):
-        ai = AbsInt()
+        # hash(x) of a caller's object is whatever its class defines: equal for any two instances that compare equal (value objects), so not a name for the instance
+        ai = AbsInt(calls={'hash': lambda v=None, *a: (f'<hash of some {v.cls}>' if isinstance(v, Obj) else UNKNOWN)})
         env = {ps[0]: 'func', ps[1]: name, ps[2]: scope, ps[3]: (inst,) if inst is not None else ()}
         ai.run(u.node.body, env)
         if not ai.returns or any(r is UNKNOWN for r in ai.returns):
